@@ -36,10 +36,13 @@ def alphabet() -> dict:
         "keys": Item("keys", 0, "keys"),  # method-like
         "class": Item("class", 0, "class"),  # keyword
         "1x": Item("1x", 0, "1x"),  # digit-leading
+        "__r": Item("__reserved", 0, "__r"),  # leading double underscore
     }
 
 
-ITEMS = ["a1", "a2", "ap", "a_2", "keys", "class", "1x"]
+ITEMS = ["a1", "a2", "ap", "a_2", "keys", "class", "1x", "__r"]
+# names that may be in use in some state; when they are not, looking them up must fail
+NAME_UNIVERSE = ["a", "a_2", "a_3", "a_2_2", "keys_2", "_class", "_1x", "__reserved", "__reserved_2", "class", "1x", "nosuchname"]
 
 
 class Nameless:
@@ -66,7 +69,8 @@ def operations() -> List[Tuple[Any, ...]]:
         ops.append(("remove", x))
     ops += [("pop",), ("pop", 0), ("pop", 1), ("clear",), ("copy",), ("copy.copy",), ("deepcopy",), ("pickle",)]
     # one-shot iterables and refused items
-    ops += [("extend-gen", "a1", "ap"), ("extend-gen", "keys", "a2"), ("append-bad",), ("insert-bad", 0), ("insert-bad", 1), ("extend-bad", "ap")]
+    ops += [("extend-nil", "ap", "a2"), ("extend-nil", "a_2", "a1"),
+            ("extend-gen", "a1", "ap"), ("extend-gen", "keys", "a2"), ("append-bad",), ("insert-bad", 0), ("insert-bad", 1), ("extend-bad", "ap")]
     return ops
 
 
@@ -132,6 +136,26 @@ def invariants(nil: Any, ref: List[Item], by_identity: bool = True) -> List[Tupl
             out.append(("key-attr-mismatch", f"{k!r}: {type(e).__name__}"))
     if len(set(keys)) != len(keys):
         out.append(("duplicate-names", repr(keys)))
+    # no name refers to an item that is not in the list: names that are not in use must not resolve to an item
+    for name in NAME_UNIVERSE:
+        if name in keys:
+            continue
+        try:
+            v = nil[name]
+            out.append(("stale-name-as-key", f"nil[{name!r}] -> {getattr(v, 'tag', v)!r} although the name is not in keys()"))
+        except KeyError:
+            pass
+        except Exception as e:  # noqa
+            out.append(("stale-name-as-key", f"nil[{name!r}] raised {type(e).__name__}"))
+        if not name.isidentifier() or name in own:
+            continue
+        try:
+            v = getattr(nil, name)
+            out.append(("stale-name-as-attribute", f"nil.{name} -> {getattr(v, 'tag', v)!r} although the name is not in keys()"))
+        except AttributeError:
+            pass
+        except Exception as e:  # noqa
+            out.append(("stale-name-as-attribute", f"nil.{name} raised {type(e).__name__}"))
     return out
 
 
@@ -180,6 +204,13 @@ def apply(st: State, op: Tuple[Any, ...]) -> None:
             st.problems.append((f"{kind}/return", f"popped {r_impl!r} expected {r_ref!r}"))
         if exc_ref is not None:
             assert ref == before
+    elif kind == "extend-nil":
+        from odxtools.nameditemlist import NamedItemList
+        ref.extend([A[op[1]], A[op[2]]])
+        try:
+            nil.extend(NamedItemList([A[op[1]], A[op[2]]]))  # the argument is itself a named item list
+        except Exception as e:  # noqa
+            st.problems.append((f"{kind}/exception", f"{type(e).__name__}: {e}"))
     elif kind == "extend-gen":
         ref.extend([A[op[1]], A[op[2]]])
         try:
@@ -254,7 +285,7 @@ def enabled(st: State) -> List[Tuple[Any, ...]]:
     present = {id(x) for x in st.nil}
     out = []
     for op in OPS:
-        if op[0] in ("append", "insert", "extend", "extend-gen", "extend-bad"):
+        if op[0] in ("append", "insert", "extend", "extend-gen", "extend-bad", "extend-nil"):
             names = op[1:] if op[0] != "insert" else op[2:]
             if any(id(st.alpha[n]) in present for n in names):
                 continue
